@@ -23,7 +23,7 @@ def main():
     patch = os.path.join(out, name + ".diff")
     demo = os.path.join(out, name + "_demo_test.go")
     res = {"property": prop, "mutant": name, "tier": tier}
-    rc, o = sh("patch -p1 --no-backup-if-mismatch < %s" % patch, cwd=scratch)
+    rc, o = sh("patch -p1 -F3 --no-backup-if-mismatch < %s" % patch, cwd=scratch)
     res["applies"] = rc == 0
     if rc != 0:
         print("patch does not apply:\n", o[-800:])
